@@ -181,7 +181,7 @@ def main(tier):
     rep.coverage.update({"combination_cases": n, "distinct_key_sets": len(distinct), "get_hex_digest_cases": nh,
                          "spellings": {a: spellings(a) for a in ALL_ALGOS}})
     run_spec(rep, C02Spec(tier), "one-instance-histories", max_depth=8 if tier == "quick" else 14,
-             time_cap=300 if tier == "quick" else 3000)
+             time_cap=120 if tier == "quick" else 3000)
     from ._t import line_level_part
     line_level_part(rep, LINE_LEVEL)
     rep.assumptions += ["line level (engine L): two calls on ONE instance with one pre-emption at every source line of the "
